@@ -113,15 +113,49 @@ fn shared_eval(seed: u64) -> Result<String, String> {
             })
             .collect()
     };
+    // an iterator created and advanced on the main thread is handed to thread 0, which finishes it
+    let (tx, rx) = std::sync::mpsc::channel::<Box<dyn Iterator<Item = String> + Send>>();
+    let hand_idx = rng.below(2) as usize;
+    let hand_t = rng.below(4);
+    let hand_k = rng.below(3) as usize;
+    let mut hand_first: Vec<String> = Vec::new();
+    if let V::N(oh) = &shared[hand_idx] {
+        let mut it: Box<dyn Iterator<Item = String> + Send> = Box::new(oh.iter_from(t(hand_t)).map(|r| format!("{r:?}")));
+        for _ in 0..hand_k {
+            hand_first.extend(it.next());
+        }
+        tx.send(it).map_err(|_| "send failed".to_string())?;
+    }
+    drop(tx);
+    let mut rx = Some(rx);
     let handles: Vec<_> = progs
         .iter()
         .cloned()
-        .map(|p| {
+        .enumerate()
+        .map(|(i, p)| {
             let sh = shared.clone();
-            thread::spawn(move || run(&p, &sh))
+            let rx = if i == 0 { rx.take() } else { None };
+            thread::spawn(move || {
+                let mut out = run(&p, &sh);
+                if let Some(rx) = rx {
+                    if let Ok(it) = rx.recv() {
+                        out.push(it.take(3).collect::<String>());
+                    }
+                }
+                out
+            })
         })
         .collect();
-    let got: Vec<Vec<String>> = handles.into_iter().map(|h| h.join().map_err(|_| "thread panicked".to_string())).collect::<Result<_, _>>()?;
+    let mut got: Vec<Vec<String>> = handles.into_iter().map(|h| h.join().map_err(|_| "thread panicked".to_string())).collect::<Result<_, _>>()?;
+    // the handed-off iterator must continue exactly where a sequential one would
+    if let V::N(oh) = &shared[hand_idx] {
+        let all: Vec<String> = oh.iter_from(t(hand_t)).map(|r| format!("{r:?}")).take(hand_k + 3).collect();
+        let cont = got[0].pop().unwrap_or_default();
+        let joined: String = hand_first.iter().cloned().chain(std::iter::once(cont)).collect();
+        if joined != all.concat() {
+            return Err(format!("iterator handed to another thread after {hand_k} steps continued with a different stream: {joined} vs {}", all.concat()));
+        }
+    }
     // post-join sequential evaluation
     for (ti, p) in progs.iter().enumerate() {
         let want = run(p, &shared);
